@@ -483,5 +483,7 @@ func main() {
 	c.Set("seeds", seeds)
 	c.Assume("kes.KeyGen/Sign/Update are the trusted prover when judging the verifier (DESIGN 3); crypto/ed25519 and blake2b are trusted")
 	c.Assume("key seeds and message contents are fixed representatives (VERIF_SEED rotates them); periods, bit positions and the Update history are enumerated completely")
+	// free-running -race pass: concurrent callers on their own inputs (state the library shares between calls)
+	c.RaceAudit("c39")
 	c.Finish()
 }
